@@ -33,10 +33,18 @@ def session(ctx, sc, k):
     rng = random.Random(ctx.seed * 7919 + k)
     R, C = SIZES[k % len(SIZES)]
     keys = b""
+    # lines longer than the window and column motions around its width: horizontal scrolling
+    wide = [b"$", b"%d|" % (C + 1), b"%d|" % C, b"%d|" % (C - 1), b"%d|" % (C + C // 2), b"%d|" % (C // 2 + 1), b"%d|" % (2 * C + 1), b"0", b"$", b"%d|" % (C + 2),
+            b"A " + b"wide words and more " * 5 + b"\x1b", b"$", b"%dh" % (C // 2), b"%dl" % (C // 2), b"b", b"w", b"^", b"$",
+            # from far right back to the columns around the window width, in one go
+            b"A " + b"wide words and more " * 5 + b"\x1b$%d|" % (C + 1), b"$%d|" % (C + 1), b"$%d|" % C, b"$%d|" % (C + 2), b"$%d|" % (C - 1),
+            b"$%d|" % (2 * C), b"$%d|" % (2 * C + 1), b"$0", b"$^", b"$%dh" % (C - 1), b"$%dh" % C, b"$%dh" % (C + 1)]
     for s in sc["steps"]:
         keys += txt(s["keys"]).encode("utf-8", "surrogateescape")
         if rng.random() < 0.3:
             keys += rng.choice(EXTRA)
+        if rng.random() < 0.2:
+            keys += rng.choice(wide)
     return session_keys(ctx, keys, (R, C), sc["seed"])
 
 
